@@ -35,6 +35,10 @@ IAPWS_STATES = [(100., 1.0e6), (300., 1.0e6), (300., 5.0e6)]
 CORE_STATES = [((100., 5.0e5), (300., 1.0e6)), ((350., 2.0e7), (400., 5.0e5))]
 
 
+MAX_PRIMERS = 64
+MAX_REDUCED = 24
+
+
 def sep_calls(hs, ps):
     return [['separated_steam_fraction', [h, p1, p2]] for h in hs for p1 in ps for p2 in [None] + list(ps)]
 
@@ -139,6 +143,7 @@ class Runner(object):
     def __init__(self, fresh, libs, iso, timeout_exc):
         self.fresh, self.libs, self.iso, self.tx = fresh, libs, iso, timeout_exc
         self.hist = []
+        self.seen = {}          # every distinct call of the running history, in order of last use
         self.n = 0
         self.bad = {}
         fresh()
@@ -153,6 +158,9 @@ class Runner(object):
             self.hist = []          # the reduction restored isolation: what follows is a new history
         else:
             self.hist = (self.hist + [spec])[-2:]
+        k = key(spec)
+        self.seen.pop(k, None)
+        self.seen[k] = spec
 
     def replay_seq(self, seq):
         """Value of the last call of seq when seq is run from a fresh state."""
@@ -165,21 +173,36 @@ class Runner(object):
 
     def deviation(self, spec, want, got):
         hist = list(self.hist)
+        # at most 3 reductions per (class of the call, class of the call before it) and MAX_REDUCED per unit: further
+        # deviations of a class already reported are only counted
+        cls = (vclass(spec), vclass(hist[-1]) if hist else None)
+        self.deviations = getattr(self, 'deviations', 0) + 1
+        self.reduced = getattr(self, 'reduced', {})
+        if self.bad and (self.reduced.get(cls, 0) >= 3 or sum(self.reduced.values()) >= MAX_REDUCED):
+            return
+        self.reduced[cls] = self.reduced.get(cls, 0) + 1
         seq = None
-        for k in (1, 2):
-            if len(hist) >= k:
-                g2 = self.replay_seq(hist[-k:] + [spec])
-                if g2 != want:
-                    seq, got = hist[-k:] + [spec], g2
-                    break
+        # one primer: the call just before, then every earlier distinct call that shares an argument value with this
+        # one (most recent first); then the two calls just before
+        cands = hist[-1:] + [s for s in reversed(list(self.seen.values()))
+                             if relation(spec, s) != 'same:none' and s not in hist[-1:]][:MAX_PRIMERS]
+        for q in cands:
+            g2 = self.replay_seq([q, spec])
+            if g2 != want:
+                seq, got = [q, spec], g2
+                break
+        if seq is None and len(hist) >= 2:
+            g2 = self.replay_seq(hist + [spec])
+            if g2 != want:
+                seq, got = hist + [spec], g2
         self.T, self.I = self.libs()
         prev = hist[-1] if hist else None
         if seq is not None:
             after = '+'.join(vclass(s) for s in seq[:-1])
             rel = relation(spec, seq[-2])
         else:
-            after = 'longer-history(last=%s)' % (vclass(prev) if prev else 'none')
-            rel = relation(spec, prev) if prev else 'same:none'
+            after = 'longer-history'
+            rel = 'any'
         sig = 'C15|%s|result-depends-on-earlier-calls|after=%s|%s' % (vclass(spec), after, rel)
         if sig not in self.bad:
             self.bad[sig] = (seq, spec, want, got, after)
